@@ -490,7 +490,13 @@ Fixpoint uu_loop (fuel : nat) (st : ustate) (got : bool) (d : list N) : option (
   | O => None
   | S f =>
     match d with
-    | [] => Some []
+    | [] =>
+        (* end of input: inside an encoded body the terminating line never came (ARCHIVE_FATAL,
+           "Truncated uuencoded data"); elsewhere it is the end of the data *)
+        match st with
+        | ST_READ_UU | ST_READ_BASE64 => None
+        | _ => Some []
+        end
     | _ =>
       match get_line d 0 with
       | None =>
